@@ -183,6 +183,19 @@ def addSonReady (tw : TW) (k : Nat) (a s x : Obj) : Bool :=
     | some ia, some is => !o.hasEdge x && tw.w.g.hasNode ia && tw.w.g.hasNode is && (tw.w.g.outE ia is).isNone
     | _, _ => false
 
+/-- `setFather(a, f, x)` has everything it needs: both node objects are known, the edge object is attached nowhere or
+to the branch from `a` to its current father, and `a` has at most one incoming neighbour (`getFatherOfNode` raises
+otherwise: "more than one father") -/
+def setFatherReady (tw : TW) (k : Nat) (a f x : Obj) : Bool :=
+  match tw.w.getObs k with
+  | none => false
+  | some o =>
+    match AL.find a o.Ng, AL.find f o.Ng with
+    | some ia, some _ =>
+      (!o.hasEdge x || tw.edgeToFather o a == some (some x)) &&
+      (match tw.w.g.inNeighbors ia with | some l => decide (l.length ≤ 1) | none => false)
+    | _, _ => false
+
 /-- `setFather(a, f, x)` is given an object attached to another branch than the one to the current father of `a` -/
 def setFatherForeign (tw : TW) (k : Nat) (a x : Obj) : Bool :=
   match tw.w.getObs k with
